@@ -108,6 +108,16 @@ QosNext == steps < MaxSteps /\
   \/ Publish(c1, <<"z">>, 0, FALSE, "B", 0, FALSE)
 QosSpec == QosInit /\ [][QosNext]_vars
 
+(* C02, "arbitrary other traffic between PUBLISH and PUBREL" includes acknowledgement packets of every kind that carry
+   the identifier of an open exchange (a client numbers its own requests and the broker's deliveries to it from the
+   same range): all paths over two exchanges, released in any order, with stray acknowledgements in between    *)
+QosStrayNext == steps < MaxSteps /\
+  \/ QosConn
+  \/ \E id \in {1, 2} : Publish2(c1, <<"a">>, FALSE, IF id = 1 THEN "x" ELSE "y", id, FALSE)
+  \/ \E id \in {1, 2} : Pubrel(c1, id)
+  \/ (conn[c1].st = "up" /\ sess[k1].p2in # <<>> /\ \E ty \in {"PUBREC", "PUBCOMP", "PUBACK", "SUBACK", "UNSUBACK"} : Stray(c1, ty, 2))
+QosStraySpec == QosInit /\ [][QosStrayNext]_vars
+
 (* C02, many QoS 2 exchanges open at once (the incoming queue grows beyond its 16 entries, also after its head has
    moved): long random behaviours generated with TLC -simulate                                               *)
 Q2Open == {sess[k1].p2in[i].id : i \in 1..Len(sess[k1].p2in)}
@@ -137,7 +147,7 @@ FwdSpec == QosInit /\ [][FwdNext]_vars
 (* C07 SUBSCRIBE / UNSUBSCRIBE requests with 1..9 filters, valid and invalid, QoS 0..3 *)
 SNames == {<<"a">>, <<"a","b">>, <<"b">>}
 FV1 == <<"a">>  FV2 == <<"a","b">>  FV3 == <<"+">>  FV4 == <<"a","#">>  FV5 == <<"b">>
-FI1 == <<"a","#","b">>  FI2 == <<"a+">>  FI3 == <<"#","a">>
+FI1 == <<"a","#","b">>  FI2 == <<"a+">>  FI3 == <<"#","a">>  FI4 == <<"a","b","c#">>
 FL == <<"LONG">>        \* the replayer sends a level of 130 characters: the request's remaining length takes two bytes
 SubReqs == { << <<FV1, 1>> >>, << <<FV1, 0>>, <<FV2, 2>> >>, << <<FV3, 2>>, <<FV1, 1>>, <<FV3, 0>> >>,
              << <<FI1, 1>> >>, << <<FV1, 1>>, <<FI2, 0>>, <<FV2, 2>> >>, << <<FV2, 3>> >>, << <<FV1, 3>>, <<FV4, 1>> >>,
@@ -159,6 +169,9 @@ SubsLastMut == \/ Churn(c1)
                \/ \E q \in {0, 1} : Subscribe(c1, 1, << <<FV1, q>> >>)
                \/ Subscribe(c1, 1, << <<FV2, 1>>, <<FV1, 0>> >>)
                \/ Unsubscribe(c1, 3, <<FV1>>) \/ Unsubscribe(c1, 3, <<FV2, FV1>>)
+               \* requests with a filter that is rejected below a level it shares with accepted ones: what was accepted
+               \* before (also earlier in the same request) stays as it is
+               \/ Subscribe(c1, 1, << <<FI1, 1>> >>) \/ Subscribe(c1, 1, << <<FV2, 1>>, <<FI4, 0>> >>)
 SubsLastNext == steps < MaxSteps /\
   IF steps < MaxSteps - 1 THEN SubsLastMut ELSE \E t \in {<<"a">>, <<"a","b">>} : Publish(c2, t, 1, FALSE, "x", 9, FALSE)
 SubsLastSpec == SubsInit /\ [][SubsLastNext]_vars
